@@ -43,6 +43,11 @@ LINES = [
     '<e> ::= r"[ab]"{2,} | b"\\x00"\n',
     '   \n',
     'x = """a\nb"""\n',
+    'w = f":)"\n',                # a closing bracket in the literal text of an f-string
+    'u = f"]{1}"\n',
+    '# c\x00omment\n',            # a NUL character with more text after it
+    '\ufeff# bom\n',              # byte-order mark
+    'n = "a\x00b"\n',             # NUL inside a string literal
 ]
 CORE = [0, 2, 3, 4, 6, 7, 12, 13]
 
